@@ -6,8 +6,10 @@ from props.C10 import menu_fn
 
 def c13_universe(tier):
     if tier == "thorough":
-        return dict(pids=[P_A, P_AB, "b"], contents=[C_ONE, C_MULTI], formats=[None, "c"], sym_dirs=True)
-    return dict(pids=[P_A, P_AB], contents=[C_ONE, C_MULTI], formats=[None, "c"], sym_dirs="tied")
+        return dict(pids=[P_A, P_AB, "b"], contents=[C_ONE, C_MULTI], formats=[None, "c"], sym_dirs=True,
+                    docs=(D_ONE, D_MULTI, D_ONE_ALT))
+    return dict(pids=[P_A, P_AB], contents=[C_ONE, C_MULTI], formats=[None, "c"], sym_dirs="tied",
+                docs=(D_ONE, D_MULTI, D_ONE_ALT))    # two documents of the same length: size says nothing
 
 
 def fold(run, results, prefix):
